@@ -158,6 +158,17 @@ CLAIMED = {
             "Trusted: pandas/polars column semantics of del/drop/loc/select/merge; sub-results satisfy the property (induction over the DAG). "
             "Not decided: column order where operators do not define it; zero-row corner cases; that declared == produced at run time.",
             "DESIGN.md 6/C08"),
+    "C14": ("sink-driven backward slicing of SQL text (concatenation / f-string / join / comprehension / local defs / inlined helpers) to leaves, with demands propagated to NearSQL constructor keywords and call sites; dialect quoting tables; regex-constant coverage; CFG dominance for the cleaner (ast)",
+            "Structural necessary conditions of 'literals and identifiers are carried verbatim': every leaf of every expression that becomes SQL "
+            "text (emitters, formatter functions of all five dialects, NearSQL fields spliced verbatim, statements handed to the database) is a "
+            "constant, number, dialect configuration, sanitiser result or checked generator output; no expression source is built from user "
+            "strings; comment text is constant or cleaned of every line break; quote_string / quote_identifier / quote_table_name carry the "
+            "text whole and cover the dialect's special characters (frozen table: 6 listed findings for MySQL/BigQuery/Spark); no "
+            "string-inspecting rewrite is applied to assembled SQL.",
+            "Trusted: the sanitisers' names as the only quoting points; dialect lexical facts frozen from the vendors' documentation; "
+            "triaged exceptions listed with reasons (numeric limits, operator names, pre-rendered fragments). Not decided: well-formedness "
+            "of whole queries, server-side Unicode handling, read-back equality on a live server.",
+            "DESIGN.md 6/C14"),
     "C27": ("def-use consumption of partition_by/order_by/reverse by each window realisation; flag partial evaluation; CFG effect ordering; index-clean typestate; per-term window coverage (ast)",
             "In Pandas, Polars and SQL the window is defined from all of partition_by, order_by and reverse with partition keys ahead "
             "of order keys and the right polarity; the sort precedes the windowed computation; Pandas captures positions before the "
